@@ -4,7 +4,7 @@ from __future__ import annotations
 import random
 
 from .. import gen, sem
-from ..snapshot import STEREO, build, pg_from_json, pg_to_json, snap
+from ..snapshot import DerivationWrong, STEREO, build, build_case, pg_from_json, pg_to_json, snap
 
 LEVEL = "exploration"
 RULE = (
@@ -91,7 +91,13 @@ def gen_cases(ctx):
 def check_case(ctx, case):
     pg = pg_from_json(case["pg"])
     cls = case["cls"]
-    g = build(pg, rng=random.Random(case["bseed"]))
+    try:
+        g, via = build_case(pg, case["bseed"])
+    except DerivationWrong as e:
+        ctx.violate(f"C06/derived-input-differs/{cls}/{e.via}", f"deriving the input graph: {e}", case)
+        ctx.case()
+        return
+    ctx.count(f"via:{via}")
     src = snap(g)
     descs = list(pg["astereo"].values()) + list(pg["bstereo"].values())
     chg_a = [d for v in pg["achange"].values() for d in v.values()]
